@@ -1,6 +1,6 @@
 (* C16 - executable transcription of the debug label table as coded:
      flipjump/assembler/preprocessor.py   label naming in resolve_macro_aux (next_macro_path, local labels, ':start:'),
-                                          insert_label (duplicate detection), insert_segment (direct assignment),
+                                          insert_label (duplicate detection), insert_segment (checked assignment),
                                           insert_macro_start_labels_if_their_address_not_used
      flipjump/assembler/inner_classes/ops.py   CodePosition.short_str, MacroName.__str__
      flipjump/utils/functions.py          save_debugging_labels / load_debugging_labels (json + raw lzma2)
@@ -65,25 +65,19 @@ Fixpoint lookup (t : table) (k : str) : option Z :=
   match t with [] => None | (n, a) :: r => if str_eqb n k then Some a else lookup r k end.
 Definition keys (t : table) : list str := map fst t.
 Definition has_key (t : table) (k : str) : bool := match lookup t k with Some _ => true | None => false end.
-(* d[k] = v *)
-Fixpoint assign (t : table) (k : str) (v : Z) : table :=
-  match t with
-  | [] => [(k, v)]
-  | (n, a) :: r => if str_eqb n k then (n, v) :: r else (n, a) :: assign r k v
-  end.
-
 (* label events of one preprocessing, in expansion order *)
 Inductive lev :=
 | Decl (name : str) (addr : Z)        (* insert_label(name, position) at curr_address *)
-| Silent (name : str) (addr : Z).     (* insert_segment: self.labels['_.wflip_area_start_i'] = curr_address *)
+| Silent (name : str) (addr : Z).     (* insert_segment: labels['_.wflip_area_start_i'] = curr_address, after the
+                                         "label declared twice" check; no code position, not in addresses_with_labels *)
 
 Inductive bres :=
 | BOk (t : table)
-| BDup (name : str)                   (* "label declared twice" -> FlipJumpPreprocessorException *)
-| BRaw (name : str).                  (* KeyError in labels_code_positions (name put there by insert_segment only) *)
+| BDup (name : str).                  (* "label declared twice" -> FlipJumpPreprocessorException (both insert_label and
+                                         insert_segment; the other position may be 'an assembler-internal label') *)
 
-Inductive lerr := LDup (name : str) | LRaw (name : str).
-Definition bres_of (e : lerr) : bres := match e with LDup n => BDup n | LRaw n => BRaw n end.
+Inductive lerr := LDup (name : str).
+Definition bres_of (e : lerr) : bres := match e with LDup n => BDup n end.
 
 (* state: labels dict, names that have a code position, addresses_with_labels *)
 Record pstate := mkp { p_tbl : table; p_pos : list str; p_used : list Z }.
@@ -92,15 +86,16 @@ Definition mem_str (k : str) (l : list str) : bool := existsb (str_eqb k) l.
 Definition mem_z (a : Z) (l : list Z) : bool := existsb (Z.eqb a) l.
 
 Definition insert_label (s : pstate) (name : str) (addr : Z) : pstate + lerr :=
-  if has_key s.(p_tbl) name then
-    (if mem_str name s.(p_pos) then inr (LDup name) else inr (LRaw name))
+  if has_key s.(p_tbl) name then inr (LDup name)
   else inl (mkp (s.(p_tbl) ++ [(name, addr)]) (name :: s.(p_pos)) (addr :: s.(p_used))).
 
 Fixpoint run_events (evs : list lev) (s : pstate) : pstate + lerr :=
   match evs with
   | [] => inl s
   | Decl n a :: r => match insert_label s n a with inl s' => run_events r s' | inr e => inr e end
-  | Silent n a :: r => run_events r (mkp (assign s.(p_tbl) n a) s.(p_pos) s.(p_used))
+  | Silent n a :: r =>
+    if has_key s.(p_tbl) n then inr (LDup n)
+    else run_events r (mkp (s.(p_tbl) ++ [(n, a)]) s.(p_pos) s.(p_used))
   end.
 
 (* insert_macro_start_labels_if_their_address_not_used: iterates macro_start_labels[::-1] *)
@@ -173,7 +168,7 @@ Record lcase := mklcase {
   l_ww : N;
   l_events : list xev;
   l_starts : list (list comp * Z);
-  l_outcome : N;                 (* observed: 0 = assembled, 1 = "label declared twice" error, 2 = catch-all error *)
+  l_outcome : N;                 (* observed: 0 = assembled, 1 = "label declared twice" error, 2 = catch-all error (never predicted) *)
   l_table : table;               (* observed load_debugging_labels (in file order, ':wflips:' entries removed) *)
   l_words : list (N * N)         (* observed Reader.memory (non-zero words) *)
 }.
@@ -194,7 +189,6 @@ Definition check_lcase (c : lcase) : bool :=
   match model_build c with
   | BOk t => (c.(l_outcome) =? 0) && table_eqb t c.(l_table)
   | BDup _ => c.(l_outcome) =? 1
-  | BRaw _ => c.(l_outcome) =? 2
   end.
 
 (* the specification evaluated on the OBSERVED table and image (no use of `build`):
